@@ -35,7 +35,8 @@ class PolynomialGeometry(NewtonRaphsonGeometry):
     def __init__(self, coordinate_system, radius, conic=0.0,
                  tol=1e-10, max_iter=100, coefficients=[]):
         super().__init__(coordinate_system, radius, conic, tol, max_iter)
-        self.c = np.atleast_2d(coefficients)
+        # own float copy (not a view of the caller's array, not integers)
+        self.c = np.array(np.atleast_2d(coefficients), dtype=float)
         self.is_symmetric = False
 
         if len(self.c) == 0:
